@@ -16,13 +16,22 @@ CORPORA = {
     "getters": dict(model="MC_Info", cfg="MC_Getters", quick=dict(MaxTags=3), thorough=dict(MaxTags=4), profiles=DEV_REL, place="end"),
     "dst": dict(model="MC_Info", cfg="MC_Dst", quick=dict(DstExtra=9), thorough=dict(DstExtra=33), profiles=DEV_REL, place="both"),
     "fb": dict(model="MC_Info", cfg="MC_Fb", quick={}, thorough={}, profiles=DEV_REL, place="both"),
+    "efi": dict(model="MC_Info", cfg="MC_Efi", quick=dict(MaxD=56, LCap=64), thorough=dict(MaxD=128, LCap=200), profiles=DEV_REL, place="both"),
+    "elf": dict(model="MC_Info", cfg="MC_Elf", quick=dict(MaxN=3), thorough=dict(MaxN=4, ElfSizes="{0, 1, 8, 24, 39, 40, 41, 48, 63, 64, 65, 72, 128}", ElfRots="{0, 3, 5, 7}"),
+                profiles=DEV_REL, place="both"),
     "load": dict(model="MC_Load", quick=dict(MaxT=72), thorough=dict(MaxT=160), profiles=DEV_REL, place="both"),
     "walk": dict(model="MC_Walk", quick=dict(MaxT=32), thorough=dict(MaxT=40), profiles=DEV_REL, place="both"),
 }
 
 # property -> list of corpus names; nontrivial rule used for evidence
 CHECKS = {
-    "C01": dict(corpora=["fields", "getters", "dst", "fb", "walk", "load"],
+    "C18": dict(corpora=["efi"],
+                rule="all (descriptor size 0..MaxD, version 0..2, map length 0..min(3d+9, LCap)); each with the environment plan "
+                     "create / len / size_hint / next past the naive count / clone / Debug"),
+    "C19": dict(corpora=["elf"],
+                rule="all (count 0..MaxN, entry size in ElfSizes, string-table index 0..n+1, section bytes in {0, n*es-1, n*es, n*es+8}, "
+                     "raw-type rotation); names resolved through a string table mapped at a fixed external address"),
+    "C01": dict(corpora=["fields", "getters", "dst", "fb", "efi", "elf", "walk", "load"],
                 rule="union of the boot-information corpora (every kind, every declared size, all framebuffer type bytes, "
                      "all walks); every call of every session is checked for crash/hang and for extents inside the owning tag"),
     "C04": dict(corpora=["fields", "getters", "fb"],
